@@ -923,10 +923,10 @@ fn help1_call(s: &str, k: usize) -> u8 {
             let x = k - H1_SLICE0;
             let (l, r) = ((x / 7) as isize - 3, (x % 7) as isize - 3);
             let len = comps().count() as isize;
-            if l < -len {
-                return H_SKIPPED; // outside the documented domain of slice (C19: l >= -len)
-            }
+            // (outside the documented domain of slice - C19: l >= -len - the result is not looked at, but the call
+            // still has to return: totality has no precondition)
             match drain(IteratorExt::slice(comps(), l, r), budget) {
+                Some(_) if l < -len => H_SKIPPED,
                 Some(left) => nt(left as isize != len),
                 None => H_BUDGET,
             }
